@@ -319,7 +319,7 @@ pub fn dig_loaded_run(prop: &str, run: usize, seed: u64) -> Vec<J> {
         let n_out = table.len() - 1;
         iterate_loaded(&tc, table, &cfg, policy_small(seed, n_out), &mut out);
     }
-    out.push(json!({"ev":"end","run":cfg.run}));
+    out.push(json!({"ev":"end","run":cfg.run,"group":0,"variant":0,"load":"ok"}));
     out
 }
 
@@ -378,7 +378,7 @@ pub fn fixture_runs(prop: &str, seed: u64) -> Vec<J> {
                 let spec = PolicySpec { seed: seed.wrapping_add(run as u64), layout: (0..n_out).collect(), widths, mode: ValMode::InWidth, numeric: vec![], p_zx: 0.0, zx_all: false, fault: None, foreign: n_out };
                 iterate_loaded(&tc, table, &cfg, make_policy(spec), &mut out);
             }
-            out.push(json!({"ev":"end","run":cfg.run}));
+            out.push(json!({"ev":"end","run":cfg.run,"group":0,"variant":0,"load":"ok"}));
         }
     }
     out
